@@ -95,14 +95,21 @@ def _work(args):
         # bounded run-time contract checking on the real code
         n = sc.concrete.get(tier, 0) if isinstance(sc.concrete, dict) else int(sc.concrete)
         rng = rnp.random.default_rng(_seed_for(seed, prop, sc_name, case_id))
-        for i in range(n):
+        # n runs whose inputs satisfy the pre-conditions of the scenario (a draw rejected by an `assume` is drawn again, up to 25 n draws)
+        attempts = done = 0
+        while done < n and attempts < 25 * n:
+            attempts += 1
             try:
                 T, st = E.run_concrete(sc.fn, case, case_id, rng)
+                if st == "unbound":
+                    break
+                done += st == "ok"
                 if out["concrete_sample"] is None and st == "ok":
                     out["concrete_sample"] = {"scenario": sc_name, "case": case_id, "inputs": eng.to_jsonable(T.inputs)}
             except BaseException as exc:  # noqa: BLE001
                 if isinstance(exc, (KeyboardInterrupt, sym.EngineError)):
                     raise
+                done += 1
                 E.concrete_failures.append(("%s.no_unexpected_exception" % prop, case_id, eng.to_jsonable(getattr(T, "inputs", {})) if "T" in dir() else {}, "%s: %s\n%s" % (type(exc).__name__, exc, traceback.format_exc(limit=-5))))
         out["results"] = [r.as_dict() for r in E.results]
         out["functions"] = E.functions
@@ -112,6 +119,7 @@ def _work(args):
         out["vacuous"] = E.vacuous_paths
         out["samples"] = E.samples
         out["concrete_runs"] = E.concrete_runs
+        out["concrete_planned"] = n
         out["concrete_distinct"] = len(E.concrete_distinct)
         out["concrete_counts"] = E.concrete_counts
         out["concrete_failures"] = E.concrete_failures
@@ -211,7 +219,11 @@ def main(argv=None):
     for sc in mod.SCENARIOS:
         if a.only and sc.name != a.only:
             continue
+        if not a.only:
+            os.environ.pop("ROPTVC_CASE_FILTER", None)
         for case_id, case in sc.cases(tier):
+            if os.environ.get("ROPTVC_CASE_FILTER") and os.environ["ROPTVC_CASE_FILTER"] not in case_id:
+                continue  # debugging aid, only honoured together with --only
             tasks.append((prop, modname, sc.name, case_id, case, tier, seed))
     if not tasks:
         print("CHECKER-ERROR property=%s no cases generated" % prop)
@@ -237,6 +249,8 @@ def main(argv=None):
         paths += o["paths"]
         vac += o["vacuous"]
         conc_runs += o["concrete_runs"]
+        if o.get("concrete_planned", 0) and o["concrete_runs"] < o["concrete_planned"] and os.environ.get("ROPTVC_REPORT_STARVED"):
+            print("STARVED scenario=%s case=%s runs=%d planned=%d" % (o["scenario"], o["case_id"], o["concrete_runs"], o["concrete_planned"]))
         conc_distinct += o["concrete_distinct"]
         for k, v in o["concrete_counts"].items():
             conc_counts[k] = conc_counts.get(k, 0) + v
